@@ -232,6 +232,24 @@ def main(tier: str) -> int:
                     run.violation({"clause": "serializers-differ", **key},
                                   f"corresponding inputs and equal options give different bytes; first differing row {k}: "
                                   f"generic {ra[k] if k < len(ra) else None} vs rdflib {rb[k] if k < len(rb) else None}", rp)
+            # the same statements as three sinks -- the middle one EMPTY -- through grouped_stream_to_file with a grouped logical type: identical bytes again
+            if bi % 3 == 1 and c["PType"] != 3 and len(stmts) >= 2:
+                k_ = len(stmts) // 2
+                g_outs = {}
+                for integ in ("generic", "rdflib"):
+                    groups = [stmts[:k_], [], stmts[k_:]]
+                    groups = [list(dict.fromkeys(g_)) for g_ in groups]              # (an rdflib Graph is a set; give both sides duplicate-free sinks)
+                    cfg_g = impl.default_cfg(integ=integ, entry="grouped_to_file", sclass=sclass, ltype=(3 if c["PType"] == 1 else 4),
+                                             preset=(c["MaxN"], c["MaxP"], c["MaxD"]), gen=False, star=False, groups=groups, dataset=(c["PType"] != 1))
+                    g_outs[integ] = _safe(impl.serialize, cfg_g, [s_ for g_ in groups for s_ in g_])
+                if all(isinstance(v, bytes) for v in g_outs.values()):
+                    fa, fb = wire.dec_delimited(g_outs["generic"]), wire.dec_delimited(g_outs["rdflib"])
+                    if [len(f_["rows"]) > 0 for f_ in fa] != [len(f_["rows"]) > 0 for f_ in fb] or len(fa) != len(fb):
+                        run.violation({"clause": "serializers-differ", "entry": "grouped_to_file", "source": "pyjelly", "universe": uni, "sub": sub.label},
+                                      f"three sinks (the middle one empty) written grouped: generic {len(fa)} frames with rows {[len(f_['rows']) for f_ in fa]}, "
+                                      f"rdflib {len(fb)} frames with rows {[len(f_['rows']) for f_ in fb]}", {"groups": groups})
+                elif isinstance(g_outs["generic"], str) != isinstance(g_outs["rdflib"], str):
+                    run.violation({"clause": "one-serializer-raises", "entry": "grouped_to_file", "source": "pyjelly", "universe": uni, "sub": sub.label}, str(g_outs), {"groups": groups})
             data = outs["generic"]
             streams += 1
             parses += agree_on_bytes(run, key, dict(rp, hex=data.hex()), data, True, arbiter=stmts)
